@@ -5,8 +5,12 @@
 package c11
 
 import (
+	"fmt"
+
 	"github.com/DemoHn/Zn/pkg/exec"
 	r "github.com/DemoHn/Zn/pkg/runtime"
+	"github.com/DemoHn/Zn/pkg/syntax"
+	"github.com/DemoHn/Zn/pkg/syntax/zh"
 	"github.com/DemoHn/Zn/pkg/value"
 	"zsym/zv"
 )
@@ -175,6 +179,133 @@ func H_ProgramsStable() {
 		want = 123
 	}
 	zv.Assert(ok && n.GetValue() == want, "program result does not depend on map iteration order")
+}
+
+func outcomeText(res r.Element, err error) string {
+	if err != nil {
+		return "ERR " + err.Error()
+	}
+	if st, ok := res.(interface{ String() string }); ok {
+		return "OK " + st.String()
+	}
+	return "OK ?"
+}
+
+// orderCases: programs whose outcome (value or error message) must be one and
+// the same under every Go map iteration order; the expected outcome is what the
+// insertion-ordered run yields.
+var orderCases = []struct {
+	name string
+	main string
+	mods map[string]string
+}{
+	{"dictionaries holding a method and a differing number", "如何F？\n    输出 1\n输出 【甲 = F，乙 = 1】 == 【甲 = F，乙 = 2】", nil},
+	{"dictionaries holding a differing number and a method", "如何F？\n    输出 1\n输出 【乙 = 1，甲 = F】 为 【乙 = 2，甲 = F】", nil},
+	{"list search among dictionaries holding methods", "如何F？\n    输出 1\n令L = 【【甲 = F，乙 = 1】】\n输出 以L（包含：【甲 = F，乙 = 2】）", nil},
+	{"two modules exporting the same two names", "导入“库一”\n导入“库二”\n输出 1", map[string]string{"库一": "如何甲？\n    输出 1\n如何乙？\n    输出 2\n", "库二": "如何甲？\n    输出 3\n如何乙？\n    输出 4\n"}},
+	{"object with three properties displayed", "定义T：\n    其甲设为1\n    其乙设为2\n    其丙设为3\n令O = （新建T）\n输出 “{}” % 【O】", nil},
+}
+
+func runModules(mainSrc string, mods map[string]string) (res r.Element, err error, p interface{}) {
+	defer func() { p = recover() }()
+	it := exec.NewInterpreter("v")
+	// script mode has no module finder for custom modules: go through LoadScript
+	// only when there are none
+	if len(mods) == 0 {
+		res, err = it.LoadScript([]rune(mainSrc)).Execute(r.ElementMap{})
+		return
+	}
+	finder := func(isMain bool, info r.LibNameInfo) ([]rune, error) {
+		if isMain {
+			return []rune(mainSrc), nil
+		}
+		if info.LibType == r.LIB_TYPE_STD {
+			return []rune{}, nil
+		}
+		if src, ok := mods[info.OriginalName]; ok {
+			return []rune(src), nil
+		}
+		return nil, fmt.Errorf("no such module")
+	}
+	parser := syntax.NewParser([]rune(mainSrc), zh.NewParserZH())
+	program, perr := parser.Parse()
+	if perr != nil {
+		return nil, perr, nil
+	}
+	vm := r.InitVM(exec.GlobalValues)
+	vm.SetModuleCodeFinder(finder)
+	res, err = exec.EvalMainModule(vm, program, r.ElementMap{})
+	return
+}
+
+// H_OutcomeStable: value or error message of the order cases under every map order.
+func H_OutcomeStable() {
+	c := orderCases[zv.Choose(len(orderCases))]
+	ref, rerr, rp := runModules(c.main, c.mods)
+	zv.Assert(rp == nil, c.name+": no panic")
+	want := outcomeText(ref, rerr)
+	zv.SetMapOrder(1)
+	res, err, p := runModules(c.main, c.mods)
+	zv.SetMapOrder(0)
+	zv.Assert(p == nil, c.name+": no panic under another map order")
+	got := outcomeText(res, err)
+	if got != want {
+		zv.Observe("want", want)
+		zv.Observe("got", got)
+	}
+	zv.Assert(got == want, c.name+": the outcome (value or error message) does not depend on map iteration order")
+}
+
+// H_InputExpressions: the outcome of evaluating a map of input expressions
+// (two of them faulty) does not depend on map iteration order.
+func H_InputExpressions() {
+	texts := []map[string]string{
+		{"甲": "1 +", "乙": "【1，2】#5", "丙": "3"},
+		{"甲": "未有此名", "乙": "1 / 0"},
+		{"甲": "1", "乙": "2", "丙": "“三”"},
+	}[zv.Choose(3)]
+	var ref, got string
+	func() {
+		defer func() {
+			if recover() != nil {
+				ref = "PANIC"
+			}
+		}()
+		m, err := exec.ExecExpressionInputText(texts)
+		ref = inputOutcome(m, err)
+	}()
+	zv.SetMapOrder(1)
+	func() {
+		defer func() {
+			if recover() != nil {
+				got = "PANIC"
+			}
+		}()
+		m, err := exec.ExecExpressionInputText(texts)
+		got = inputOutcome(m, err)
+	}()
+	zv.SetMapOrder(0)
+	zv.Assert(ref != "PANIC" && got != "PANIC", "input expressions: no panic")
+	if got != ref {
+		zv.Observe("want", ref)
+		zv.Observe("got", got)
+	}
+	zv.Assert(got == ref, "the outcome of evaluating input expressions does not depend on map iteration order")
+}
+
+func inputOutcome(m r.ElementMap, err error) string {
+	if err != nil {
+		return "ERR " + err.Error()
+	}
+	s := "OK"
+	for _, k := range []string{"甲", "乙", "丙"} {
+		if v, ok := m[k]; ok {
+			if st, ok2 := v.(interface{ String() string }); ok2 {
+				s += " " + k + "=" + st.String()
+			}
+		}
+	}
+	return s
 }
 
 // W_Witness: vacuity guard - map order is really symbolic.
